@@ -383,6 +383,8 @@ pub enum Ev {
     // --- driver
     GateRelease { id: usize, kind: String, had_waker: bool, wake_before: usize },
     Clock { wall: i128, mono: i128 },
+    /// A TimeSource read (only logged when the clock auto-ticks).
+    ClockRead { wall: i128, mono: i128 },
     Crash { at: u64 },
     Restart,
     Built,
@@ -735,6 +737,9 @@ pub struct World {
     pub genuine: Vec<(u16, Vec<(String, Vec<u8>)>, Vec<u8>)>,
     pub cup: Option<crate::sim::omaha::ServerKeys>,
     pub nonces: Vec<String>,
+    /// If non-zero every TimeSource read advances both clocks by this much (time passes while
+    /// the machine computes) and is logged.
+    pub autotick_ns: i128,
 }
 
 impl World {
@@ -765,6 +770,7 @@ impl World {
             genuine: vec![],
             cup: None,
             nonces: vec![],
+            autotick_ns: 0,
         }))
     }
 
@@ -806,6 +812,17 @@ impl World {
 
     pub fn pending_gates(&self) -> Vec<usize> {
         self.gates.iter().filter(|g| g.state == GateState::Pending).map(|g| g.id).collect()
+    }
+
+    /// One TimeSource read.
+    pub fn read_clock(&mut self) -> (i128, i128) {
+        if self.autotick_ns != 0 && !self.crashed {
+            self.wall_ns += self.autotick_ns;
+            self.mono_ns += self.autotick_ns;
+            let (wall, mono) = (self.wall_ns, self.mono_ns);
+            self.push(Ev::ClockRead { wall, mono });
+        }
+        (self.wall_ns, self.mono_ns)
     }
 
     pub fn advance(&mut self, d_ns: i128) {
